@@ -176,9 +176,11 @@ theorem runNew_frozen (t : Task) (a : Nat) : Frozen t (runNew t) a := by
     exact scheduleAction_frozen { t with state := .running } a r hr hc
   · exact Frozen.refl t a
 
-theorem runExisting_frozen (t : Task) (reset : Bool) (a : Nat) :
-    Frozen t (runExisting t reset).1 a := by
+theorem runExisting_frozen (t : Task) (rerun reset : Bool) (a : Nat) :
+    Frozen t (runExisting t rerun reset).1 a := by
   unfold runExisting
+  split
+  · exact Frozen.refl t a
   split
   · exact Frozen.refl t a
   split
@@ -202,10 +204,10 @@ theorem step_frozen (t : Task) (d : Delivery) (a : Nat) : Frozen t (step t d) a 
     intro r hr _
     exact ⟨r, by simp [step, hr], rfl, rfl, rfl⟩
   | expiry => exact expireFrom_frozen _ t a
-  | startTask fr reset =>
+  | startTask fr rerun reset =>
     cases fr with
     | true => exact runNew_frozen t a
-    | false => exact runExisting_frozen t reset a
+    | false => exact runExisting_frozen t rerun reset a
 
 theorem run_frozen (ds : List Delivery) (t : Task) (a : Nat) : Frozen t (run t ds) a := by
   induction ds generalizing t with
@@ -239,12 +241,14 @@ theorem step_ne_idle (t : Task) (d : Delivery) (h : t.state ≠ .idle) : (step t
       · exact taskComplete_ne_idle _ _ h
   | wfResult k => exact taskComplete_ne_idle t k h
   | expiry => exact expireFrom_state_ne_idle _ t h
-  | startTask fr reset =>
+  | startTask fr rerun reset =>
     cases fr with
     | true => simp [step, runNew, h]
     | false =>
-      show (runExisting t reset).1.state ≠ .idle
+      show (runExisting t rerun reset).1.state ≠ .idle
       unfold runExisting
+      split
+      · exact h
       split
       · exact h
       split
@@ -277,7 +281,8 @@ theorem expireFrom_state_completed (idx : List Nat) (t : Task) (h : t.state.comp
       · exact h
       · simp [taskComplete, h]
 
-/-- a completed task stays completed under every delivery that is not a rerun request -/
+/-- a completed task stays completed under every delivery that is not an explicit rerun request
+    (`first_run=False, rerun=True`) -/
 theorem step_task_completed (t : Task) (d : Delivery) (hd : d.notRerun = true)
     (h : t.state.completed = true) : (step t d).state.completed = true := by
   cases d with
@@ -291,12 +296,20 @@ theorem step_task_completed (t : Task) (d : Delivery) (hd : d.notRerun = true)
       · simp [taskComplete, h]
   | wfResult k => simp [step, taskComplete, h]
   | expiry => exact (expireFrom_state_completed _ t h).2
-  | startTask fr reset =>
+  | startTask fr rerun reset =>
     cases fr with
     | true =>
       have : t.state ≠ .idle := by intro e; rw [e] at h; cases h
       simp [step, runNew, this, h]
-    | false => cases hd
+    | false =>
+      cases rerun with
+      | true => cases hd
+      | false =>
+        show (runExisting t false reset).1.state.completed = true
+        unfold runExisting
+        split
+        · exact h
+        · simp [h]
 
 theorem run_task_completed (ds : List Delivery) (t : Task) (hd : ∀ d ∈ ds, d.notRerun = true)
     (h : t.state.completed = true) : (run t ds).state.completed = true := by
@@ -305,6 +318,140 @@ theorem run_task_completed (ds : List Delivery) (t : Task) (hd : ∀ d ∈ ds, d
   | cons d ds ih =>
     exact ih _ (fun x hx => hd x (List.mem_cons_of_mem _ hx))
       (step_task_completed t d (hd d (List.mem_cons_self)) h)
+
+/-! ### a started task: RUNNING with a live action execution, or completed -/
+
+/-- the task has been started: it is RUNNING the action of a start request (`inProgress`), or it has
+    completed.  In such a state every start request that is not an explicit rerun is a no-op
+    (`_run_new`: not IDLE; `_run_existing`: the guards of 17f326b9 and 258aaaae). -/
+def Started (t : Task) : Prop := inProgress t = true ∨ t.state.completed = true
+
+/-- what every state made by the engine satisfies: IDLE (not started yet) or `Started` - no task is
+    RUNNING without a live action execution, none is IDLE again after it left IDLE (the policy states
+    WAITING / DELAYED / PAUSED are outside this model) -/
+def StartInv (t : Task) : Prop := t.state = .idle ∨ Started t
+
+theorem startInv_fresh : StartInv fresh := Or.inl rfl
+
+theorem started_ne_idle {t : Task} (h : Started t) : t.state ≠ .idle := by
+  intro e
+  cases h with
+  | inl h => simp [inProgress, e] at h
+  | inr h => rw [e] at h; cases h
+
+theorem scheduleAction_inProgress (t : Task) (h : t.state = .running) :
+    inProgress (scheduleAction t) = true := by
+  simp [inProgress, scheduleAction, hasRunningAction, newAction, AState.completed, h]
+
+/-- `on_action_complete`: rejected / not found = nothing changes; accepted = the task is completed
+    (Task.complete runs in the same transaction) -/
+theorem deliverResult_same_or_completed (t : Task) (a : Nat) (k : Kind) (tag : Nat) :
+    (deliverResult t a k tag).1 = t ∨ (deliverResult t a k tag).1.state.completed = true := by
+  unfold deliverResult
+  split
+  · exact Or.inl rfl
+  · split
+    · exact Or.inl rfl
+    · exact Or.inr (taskComplete_completed _ k)
+
+theorem expireFrom_same_or_completed (idx : List Nat) (t : Task) :
+    expireFrom t idx = t ∨ (expireFrom t idx).state.completed = true := by
+  induction idx generalizing t with
+  | nil => exact Or.inl rfl
+  | cons i rest ih =>
+    show expireFrom (deliverResult t i .error hbTag).1 rest = t ∨
+      (expireFrom (deliverResult t i .error hbTag).1 rest).state.completed = true
+    cases deliverResult_same_or_completed t i .error hbTag with
+    | inl h => rw [h]; exact ih t
+    | inr h => exact Or.inr (expireFrom_state_completed rest _ h).2
+
+/-- after `_run_existing` - whatever the state before, whatever the flags - the task is started -/
+theorem runExisting_started (t : Task) (rerun reset : Bool) : Started (runExisting t rerun reset).1 := by
+  unfold runExisting
+  split
+  · rename_i h; exact Or.inr (by rw [h]; rfl)
+  split
+  · rename_i h; simp at h; exact Or.inr h.1
+  split
+  · rename_i h; exact Or.inl h
+  · exact Or.inl (scheduleAction_inProgress _ rfl)
+
+/-- `Started` is stable under EVERY delivery (results, expiries, start requests of every kind, explicit
+    reruns included) -/
+theorem step_started (t : Task) (d : Delivery) (h : Started t) : Started (step t d) := by
+  cases d with
+  | result a k tag =>
+    show Started (deliverResult t a k tag).1
+    cases deliverResult_same_or_completed t a k tag with
+    | inl e => rw [e]; exact h
+    | inr e => exact Or.inr e
+  | wfResult k => exact Or.inr (taskComplete_completed t k)
+  | expiry =>
+    show Started (expireFrom t (runningIdx t.actions))
+    cases expireFrom_same_or_completed (runningIdx t.actions) t with
+    | inl e => rw [e]; exact h
+    | inr e => exact Or.inr e
+  | startTask fr rerun reset =>
+    cases fr with
+    | true =>
+      have : t.state ≠ .idle := started_ne_idle h
+      simpa [step, runNew, this] using h
+    | false => exact runExisting_started t rerun reset
+
+theorem run_started (ds : List Delivery) (t : Task) (h : Started t) : Started (run t ds) := by
+  induction ds generalizing t with
+  | nil => exact h
+  | cons d ds ih => exact ih _ (step_started t d h)
+
+theorem step_startInv (t : Task) (d : Delivery) (h : StartInv t) : StartInv (step t d) := by
+  cases h with
+  | inr h => exact Or.inr (step_started t d h)
+  | inl hi =>
+    cases d with
+    | result a k tag =>
+      show StartInv (deliverResult t a k tag).1
+      cases deliverResult_same_or_completed t a k tag with
+      | inl e => rw [e]; exact Or.inl hi
+      | inr e => exact Or.inr (Or.inr e)
+    | wfResult k => exact Or.inr (Or.inr (taskComplete_completed t k))
+    | expiry =>
+      show StartInv (expireFrom t (runningIdx t.actions))
+      cases expireFrom_same_or_completed (runningIdx t.actions) t with
+      | inl e => rw [e]; exact Or.inl hi
+      | inr e => exact Or.inr (Or.inr e)
+    | startTask fr rerun reset =>
+      cases fr with
+      | true =>
+        refine Or.inr (Or.inl ?_)
+        simp only [step, runNew, hi, if_true]
+        exact scheduleAction_inProgress _ rfl
+      | false => exact Or.inr (runExisting_started t rerun reset)
+
+theorem run_startInv (ds : List Delivery) (t : Task) (h : StartInv t) : StartInv (run t ds) := by
+  induction ds generalizing t with
+  | nil => exact h
+  | cons d ds ih => exact ih _ (step_startInv t d h)
+
+/-- in a started task a `_run_existing` request that is not an explicit rerun does nothing -/
+theorem runExisting_of_started (t : Task) (reset : Bool) (h : Started t) :
+    (runExisting t false reset).1 = t ∧
+    ((runExisting t false reset).2 = .noop ∨ (runExisting t false reset).2 = .refused) := by
+  unfold runExisting
+  split
+  · exact ⟨rfl, Or.inr rfl⟩
+  split
+  · exact ⟨rfl, Or.inl rfl⟩
+  split
+  · exact ⟨rfl, Or.inl rfl⟩
+  · rename_i h1 h2 h3
+    cases h with
+    | inl h => exact absurd h h3
+    | inr h => simp [h] at h2
+
+theorem run_append (t : Task) (ds es : List Delivery) : run t (ds ++ es) = run (run t ds) es := by
+  induction ds generalizing t with
+  | nil => rfl
+  | cons d ds ih => exact ih _
 
 /-! ### counting invariants -/
 
@@ -357,7 +504,7 @@ theorem step_acceptInv (t : Task) (d : Delivery) (h : AcceptInv t) : AcceptInv (
     simp only [step, taskComplete_actions] at hr
     exact h r hr
   | expiry => exact expireFrom_acceptInv _ t h
-  | startTask fr reset =>
+  | startTask fr rerun reset =>
     cases fr with
     | true =>
       show AcceptInv (runNew t)
@@ -366,8 +513,10 @@ theorem step_acceptInv (t : Task) (d : Delivery) (h : AcceptInv t) : AcceptInv (
       · exact scheduleAction_acceptInv _ h
       · exact h
     | false =>
-      show AcceptInv (runExisting t reset).1
+      show AcceptInv (runExisting t rerun reset).1
       unfold runExisting
+      split
+      · exact h
       split
       · exact h
       split
@@ -384,32 +533,41 @@ theorem run_acceptInv (ds : List Delivery) (t : Task) (h : AcceptInv t) : Accept
   | nil => exact h
   | cons d ds ih => exact ih _ (step_acceptInv t d h)
 
-/-- one task, deliveries without rerun requests: at most one action execution dispatched and the
-    completion logic (downstream dispatch) ran at most once -/
+/-- one task, deliveries without explicit rerun requests (the request re-queued on resume,
+    `first_run=False, rerun=False`, is allowed): at most one action execution dispatched and the
+    completion logic (downstream dispatch) ran at most once; the task is IDLE, RUNNING its one action, or
+    completed -/
 structure OnceInv (t : Task) : Prop where
   idle0 : t.state = .idle → t.dispatched = 0
   disp : t.dispatched ≤ 1
   len : t.actions.length = t.dispatched
   comp : t.completions ≤ 1
   compDone : t.completions = 1 → t.state.completed = true
+  started : StartInv t
 
 theorem onceInv_fresh : OnceInv fresh :=
-  ⟨fun _ => rfl, by decide, rfl, by decide, by intro h; cases h⟩
+  ⟨fun _ => rfl, by decide, rfl, by decide, (by intro h; cases h), startInv_fresh⟩
 
-theorem taskComplete_onceInv (t : Task) (k : Kind) (h : OnceInv t) :
+/-- (the hypotheses are the fields of `OnceInv` except `started`, which `taskComplete` establishes) -/
+theorem taskComplete_onceInv' (t : Task) (k : Kind) (h0 : t.state = .idle → t.dispatched = 0)
+    (h1 : t.dispatched ≤ 1) (h2 : t.actions.length = t.dispatched) (h3 : t.completions ≤ 1)
+    (h4 : t.completions = 1 → t.state.completed = true) :
     OnceInv (taskComplete t (tStateOf k)) := by
   unfold taskComplete
   split
-  · exact h
+  · rename_i hc
+    exact ⟨h0, h1, h2, h3, h4, Or.inr (Or.inr hc)⟩
   · rename_i hn
     have hc0 : t.completions = 0 := by
-      have := h.comp
-      have h1 := h.compDone
       by_cases e : t.completions = 1
-      · exact absurd (h1 e) hn
+      · exact absurd (h4 e) hn
       · omega
-    exact ⟨fun e => absurd e (tStateOf_ne_idle k), h.disp, h.len, by simp [hc0],
-           fun _ => tStateOf_completed k⟩
+    exact ⟨fun e => absurd e (tStateOf_ne_idle k), h1, h2, by simp [hc0],
+           fun _ => tStateOf_completed k, Or.inr (Or.inr (tStateOf_completed k))⟩
+
+theorem taskComplete_onceInv (t : Task) (k : Kind) (h : OnceInv t) :
+    OnceInv (taskComplete t (tStateOf k)) :=
+  taskComplete_onceInv' t k h.idle0 h.disp h.len h.comp h.compDone
 
 theorem deliverResult_onceInv (t : Task) (a : Nat) (k : Kind) (tag : Nat) (h : OnceInv t) :
     OnceInv (deliverResult t a k tag).1 := by
@@ -418,8 +576,7 @@ theorem deliverResult_onceInv (t : Task) (a : Nat) (k : Kind) (tag : Nat) (h : O
   · exact h
   · split
     · exact h
-    · apply taskComplete_onceInv
-      exact ⟨h.idle0, h.disp, by simpa using h.len, h.comp, h.compDone⟩
+    · exact taskComplete_onceInv' _ k h.idle0 h.disp (by simpa using h.len) h.comp h.compDone
 
 theorem expireFrom_onceInv (idx : List Nat) (t : Task) (h : OnceInv t) :
     OnceInv (expireFrom t idx) := by
@@ -433,9 +590,38 @@ theorem step_onceInv (t : Task) (d : Delivery) (hd : d.notRerun = true) (h : Onc
   | result a k tag => exact deliverResult_onceInv t a k tag h
   | wfResult k => exact taskComplete_onceInv t k h
   | expiry => exact expireFrom_onceInv _ t h
-  | startTask fr reset =>
+  | startTask fr rerun reset =>
     cases fr with
-    | false => cases hd
+    | false =>
+      cases rerun with
+      | true => cases hd
+      | false =>
+        -- the request re-queued on resume: it runs the task only if the task is still IDLE
+        show OnceInv (runExisting t false reset).1
+        unfold runExisting
+        split
+        · exact h
+        split
+        · exact h
+        split
+        · exact h
+        · rename_i h1 h2 h3
+          have hi : t.state = .idle := by
+            cases h.started with
+            | inl hi => exact hi
+            | inr hs =>
+              cases hs with
+              | inl hp => exact absurd hp h3
+              | inr hc => simp [hc] at h2
+          have d0 := h.idle0 hi
+          have hl := h.len
+          refine ⟨fun e => by simp [scheduleAction] at e, by simp [scheduleAction, d0],
+                  by simp [scheduleAction, resetActions, hl], h.comp, ?_,
+                  Or.inr (Or.inl (scheduleAction_inProgress _ rfl))⟩
+          intro hc
+          have := h.compDone (by simpa [scheduleAction] using hc)
+          rw [hi] at this
+          cases this
     | true =>
       show OnceInv (runNew t)
       unfold runNew
@@ -444,7 +630,8 @@ theorem step_onceInv (t : Task) (d : Delivery) (hd : d.notRerun = true) (h : Onc
         have d0 := h.idle0 hi
         have hl := h.len
         refine ⟨fun e => by simp [scheduleAction] at e, by simp [scheduleAction, d0],
-                by simp [scheduleAction, hl], h.comp, ?_⟩
+                by simp [scheduleAction, hl], h.comp, ?_,
+                Or.inr (Or.inl (scheduleAction_inProgress _ rfl))⟩
         intro hc
         have := h.compDone (by simpa [scheduleAction] using hc)
         rw [hi] at this
